@@ -293,11 +293,14 @@ package res
 //@ pred hstable(q *Request) = invR(q) && imp(old(q.replied), q.replied) && same(q.rtype, old(q.rtype)) && same(q.method, old(q.method))
 //@     && q.msg == old(q.msg) && q.s == old(q.s) && same(q.s.nc, old(q.s.nc)) && same(q.msg.Reply, old(q.msg.Reply))
 //@     && same(q.h, old(q.h)) && q.s.logger == old(q.s.logger) && same(q.msg.Subject, old(q.msg.Subject))
+//@ ghostvar ninvoked int
+//@ ghostvar invokedFn ref
+//@ # dispatch log: ninvoked counts handler invocations made by executeHandler, invokedFn is the last one
 //@ func callback.handler(self ref, r iface)
 //@   requires typeIs(r, "*res.Request") && reqOK(ptrOf(r, "*res.Request")) && invR(ptrOf(r, "*res.Request"))
 //@   modifies all
-//@   ensures hstable(ptrOf(r, "*res.Request"))
-//@   ensures_on_panic hstable(ptrOf(r, "*res.Request"))
+//@   ensures hstable(ptrOf(r, "*res.Request")) && ninvoked == old(ninvoked) + 1 && invokedFn == self
+//@   ensures_on_panic hstable(ptrOf(r, "*res.Request")) && ninvoked == old(ninvoked) + 1 && invokedFn == self
 //@
 //@ func Request.executeHandler$1()
 //@   requires reqOK(r) && invR(r)
@@ -316,6 +319,18 @@ package res
 //@   dead return1
 //@   ensures answered: imp(!(r.rtype == "access" && r.h.Access == nil), r.replied && rcount[ref(r)] == 1)
 //@   ensures silent: imp(r.rtype == "access" && r.h.Access == nil, rcount[ref(r)] == 0)
+//@   ensures frame: same(r.rtype, old(r.rtype)) && same(r.method, old(r.method)) && same(r.h, old(r.h))
+//@   # C05: exactly the handler registered for the type / method is invoked
+//@   ensures inv.access: imp(old(r.rtype == "access" && r.h.Access != nil), ninvoked == old(ninvoked) + 1 && invokedFn == old(ref(r.h.Access)))
+//@   ensures inv.get: imp(old(r.rtype == "get" && r.h.Get != nil), ninvoked == old(ninvoked) + 1 && invokedFn == old(ref(r.h.Get)))
+//@   ensures inv.new: imp(old(r.rtype == "call" && r.method == "new" && r.h.New != nil), ninvoked == old(ninvoked) + 1 && invokedFn == old(ref(r.h.New)))
+//@   ensures inv.call: imp(old(r.rtype == "call" && !(r.method == "new" && r.h.New != nil) && r.h.Call[r.method] != nil), ninvoked == old(ninvoked) + 1 && invokedFn == old(ref(r.h.Call[r.method])))
+//@   ensures inv.callstar: imp(old(r.rtype == "call" && !(r.method == "new" && r.h.New != nil) && r.h.Call[r.method] == nil && r.h.Call["*"] != nil), ninvoked == old(ninvoked) + 1 && invokedFn == old(ref(r.h.Call["*"])))
+//@   ensures inv.auth: imp(old(r.rtype == "auth" && r.h.Auth[r.method] != nil), ninvoked == old(ninvoked) + 1 && invokedFn == old(ref(r.h.Auth[r.method])))
+//@   ensures inv.authstar: imp(old(r.rtype == "auth" && r.h.Auth[r.method] == nil && r.h.Auth["*"] != nil), ninvoked == old(ninvoked) + 1 && invokedFn == old(ref(r.h.Auth["*"])))
+//@   ensures inv.none: imp(old((r.rtype == "access" && r.h.Access == nil) || (r.rtype == "get" && r.h.Get == nil)
+//@       || (r.rtype == "call" && !(r.method == "new" && r.h.New != nil) && r.h.Call[r.method] == nil && r.h.Call["*"] == nil)
+//@       || (r.rtype == "auth" && r.h.Auth[r.method] == nil && r.h.Auth["*"] == nil)), ninvoked == old(ninvoked))
 //@
 //@ # ---- accessors (C05: the handler sees the fields exactly as stored)
 //@ func (r *Request) Type() (res string)
@@ -366,3 +381,62 @@ package res
 //@ func (r *resource) ResourceType() (res ResourceType)
 //@   requires r != nil
 //@   ensures res == r.h.Type
+//@
+//@ # ================================================================ dispatch (C05)
+//@ ghostvar lastReq ref
+//@ ghostvar proc_m ref
+//@ ghostvar proc_mh ref
+//@ ghostvar proc_rtype string
+//@ ghostvar proc_rname string
+//@ ghostvar proc_method string
+//@
+//@ func (m *Mux) GetHandler(rname string) (mh *Match)
+//@   requires m != nil
+//@   modifies alloc, res.Match.Handler, res.Match.Listeners, res.Match.Params, res.Match.Group
+//@
+//@ func (s *Service) runWith(wid string, cb func())
+//@   requires s != nil
+//@   modifies res.Service.rwork, res.Service.workqueue, alloc
+//@
+//@ func (s *Service) processRequest(m *nats.Msg, rtype string, rname string, method string, mh *Match)
+//@   requires s != nil && m != nil && !isNil(s.nc)
+//@   requires rt: rtype == "access" || rtype == "get" || rtype == "call" || rtype == "auth"
+//@   requires fresh: forallge(q, nextRef(), rcount[q] == 0)
+//@   modifies all
+//@   ghost call Unmarshal#1 before :: assert zeroed: isZero(rc)
+//@   ghost call Request.reply#1 before :: set lastReq = ref(r)
+//@   ghost call Request.error#1 before :: set lastReq = ref(r)
+//@   ghost call Request.executeHandler#1 before :: assert f.route: same(r.rname, rname) && same(r.pathParams, mh.Params) && same(r.group, mh.Group) && same(r.rtype, rtype) && same(r.method, method)
+//@   ghost call Request.executeHandler#1 before :: assert f.payload: same(r.query, rc.Query) && same(r.cid, rc.CID) && same(r.params, rc.Params) && same(r.token, rc.Token) && same(r.header, rc.Header)
+//@       && same(r.host, rc.Host) && same(r.remoteAddr, rc.RemoteAddr) && same(r.uri, rc.URI) && r.isHTTP == rc.IsHTTP
+//@   ghost call Request.executeHandler#1 before :: assert f.handler: same(r.h, mh.Handler) && same(r.listeners, mh.Listeners)
+//@   ghost call Request.executeHandler#1 before :: assert f.fresh: r.msg == m && r.s == s && !r.replied && len(r.rheader) == 0 && r.status == 0
+//@   ghost call Request.executeHandler#1 after :: set lastReq = ref(r)
+//@   ghost exit :: set proc_m = ref(m)
+//@   ghost exit :: set proc_mh = ref(mh)
+//@   ghost exit :: set proc_rtype = rtype
+//@   ghost exit :: set proc_rname = rname
+//@   ghost exit :: set proc_method = method
+//@   ensures atmost: rcount[lastReq] <= 1
+//@   ensures answered: imp(mh == nil || rtype != "access" || old(mh.Handler.Access != nil), rcount[lastReq] == 1)
+//@   ensures args: proc_m == ref(m) && proc_mh == ref(mh) && same(proc_rtype, rtype) && same(proc_rname, rname) && same(proc_method, method)
+//@
+//@ func Service.handleRequest$1()
+//@   requires s != nil && m != nil && !isNil(s.nc)
+//@   requires rt: rtype == "access" || rtype == "get" || rtype == "call" || rtype == "auth"
+//@   requires fresh: forallge(q, nextRef(), rcount[q] == 0)
+//@   modifies all
+//@   ensures args: proc_m == ref(m) && proc_mh == ref(mh) && same(proc_rtype, rtype) && same(proc_rname, rname) && same(proc_method, method)
+//@
+//@ spec func dotFree(s string) bool
+//@   = forall(k, 0, len(s), s[k] != '.')
+//@ func (s *Service) handleRequest(m *nats.Msg)
+//@   requires s != nil && m != nil && s.Mux != nil
+//@   modifies res.Service.rwork, res.Service.workqueue, alloc, res.Match.Handler, res.Match.Listeners, res.Match.Params, res.Match.Group
+//@   callback onError benign
+//@   ghost call Service.runWith#1 before :: assert split.type: dotFree(rtype) && len(rtype) < len(m.Subject) && m.Subject[0:len(rtype)] == rtype && m.Subject[len(rtype)] == '.'
+//@   ghost call Service.runWith#1 before :: assert split.plain: imp(!(rtype == "call" || rtype == "auth"), len(method) == 0 && m.Subject[len(rtype)+1:] == rname)
+//@   ghost call Service.runWith#1 before :: assert split.len: imp(rtype == "call" || rtype == "auth", len(m.Subject) == len(rtype) + 1 + len(rname) + 1 + len(method) && m.Subject[len(rtype)+1+len(rname)] == '.')
+//@   ghost call Service.runWith#1 before :: assert split.rname: imp(rtype == "call" || rtype == "auth", m.Subject[len(rtype)+1:len(rtype)+1+len(rname)] == rname)
+//@   ghost call Service.runWith#1 before :: assert split.method: imp(rtype == "call" || rtype == "auth", dotFree(method) && m.Subject[len(rtype)+2+len(rname):] == method)
+//@   ghost call Service.runWith#1 before :: assert group: imp(mh == nil, group == rname) && imp(mh != nil, same(group, mh.Group))
